@@ -1,9 +1,15 @@
 """Property configurations: extra roots, other back ends, assumptions, clauses not decided by contracts."""
 from .props import PropertyConfig
+from . import ground, static, leanback
 
-M_SHA = "M-sha (T2): SHA-256 is treated as injective on the inputs considered; 'keys differ' conclusions are proved as injectivity of the hashed pre-image"
-ILAWS = ("GroupSpec interface laws (ILAW-*) are assumed in the session-level proofs and discharged separately for each "
-         "concrete group by the refinement obligations of contracts/groups.py and contracts/ed25519.py")
+M_SHA = "M-sha (T2): SHA-256 is treated as injective on the inputs considered; 'keys differ' conclusions are proved as injectivity of the hashed pre-image in every field"
+ILAWS = ("session code is verified against the abstract GroupSpec interface; every interface clause and interface law (ILAW-*) used is "
+         "discharged for IntegerGroup over symbolic valid (p,q,g) and for Ed25519 by the refinement obligations (see coverage.interface_*)")
+VALID_GROUP = "valid_group(p,q,g): p, q prime, q | p-1, sizes consistent (the precondition 'any valid prime-order group'); for the shipped constants see C18"
+A_ENT = "A-entropy: the entropy function returns n bytes when asked for n and does not raise"
+A_HKDF = "HKDF-SHA256 (cryptography package) modelled as an uninterpreted function of (ikm, salt, info, length); the call shape is taken from the real source"
+A_TERM = "A-ae-terminates: Ed25519 try-and-increment and rejection sampling terminate (probability-1 / density arguments, not proved)"
+CONST_NOTE = "integer-group constants are compared with a snapshot frozen from the released tree (certs/published.json); Ed25519 constants with RFC 8032 values typed into pyvc/spec_ed.py"
 
 CONFIG = {}
 
@@ -12,10 +18,85 @@ def cfg(pid, **kw):
     CONFIG[pid] = PropertyConfig(pid, **kw)
 
 
+def lean_theorems(*names):
+    """static Lean theorems that carry a step of the argument (Algebra.lean), as obligations of back end lean"""
+    def f():
+        r, present = leanback.algebra_status()
+        out = []
+        for n in names:
+            ok = r["ok"] and n in present
+            out.append(dict(name="lean:Algebra.%s" % n, backend="lean", status="discharged" if ok else "undecided",
+                            detail="lean %.0fs%s" % (r["seconds"], " cached" if r["cached"] else "") if ok else r["tail"][-200:]))
+        return out
+    return f
+
+
+def extra(*fs, known=None):
+    def run(pid, tier, repo, reg, results):
+        out = []
+        for f in fs:
+            r = f() if not getattr(f, "needs_repo", False) else f(repo)
+            if isinstance(r, tuple):     # (obligations, bounded stand-ins)
+                out += r[0]
+                run.standins = r[1]
+            else:
+                out += r
+        from .props import load_known_findings
+        listed = {k["id"] for k in load_known_findings().get("known", []) if k.get("property") == pid}
+        for k in (known or []):
+            if k not in listed:
+                continue
+            for r in ground.known(k):
+                # a known finding that still reproduces is reported as such; if it no longer reproduces nothing is printed
+                if r["status"] == "discharged":
+                    out.append(dict(name="known-finding:" + k, backend="ground", status="discharged", detail=r["detail"],
+                                    known_finding="%s: %s" % (k, r["detail"])))
+        return out
+    return run
+
+
+def _static(repo):
+    return static.obligations(repo)
+
+
+_static.needs_repo = True
+
+cfg("C01", assumptions=[ILAWS, VALID_GROUP, A_ENT, A_HKDF, "A-ae-empty: arbitrary_element(b'') is defined for the group (ground-checked for the shipped sets in C03/C18)"],
+    extra=extra(lean_theorems("spake2_agree", "smul_add", "smul_mul", "smul_mul_distrib", "order_mul_closed", "order_smul_closed")))
+cfg("C02", assumptions=[ILAWS, M_SHA, A_ENT],
+    not_decided=["'keys differ' as an absolute statement needs collision resistance of SHA-256 (M-sha)",
+                 "parameter mismatch with a zero scalar: known finding K2 (inherent in SPAKE2); the non-degenerate algebra is Lean theorem mismatch",
+                 "two symmetric ends that sent the SAME blinded element and both receive the same third message agree on a key: degenerate coincidence (probability 2^-252), excluded by hypothesis in lemma C02_tamper_sym"],
+    extra=extra(lean_theorems("mismatch", "mismatch'"), known=["K2", "K3"]))
+cfg("C03", assumptions=[ILAWS, A_HKDF, CONST_NOTE, "the independent reference derivation (spec/reference.py) is validated only against the library's published vectors (certs/vectors.json)"],
+    extra=extra(ground.constants, ground.vectors))
+cfg("C04", assumptions=[ILAWS, A_ENT],
+    not_decided=["'uniformly distributed' / 'statistically independent' are the probabilistic corollaries of the proved bijection (Lean affine_injOn) and of C11; the corollary itself is stated, not mechanised",
+                 "password-independence of the scalar and identity-independence of the message are read off the proved result terms (syntactic dependence over-approximates semantic dependence)"],
+    extra=extra(lean_theorems("affine_injOn", "affine_inj_nat")))
+cfg("C05", assumptions=[ILAWS, VALID_GROUP, "M-xrecover (T2): completeness of x-recovery (every curve point's y has a root) is only needed for 'honest encodings decode' (C15), not for strictness"])
+cfg("C06", assumptions=[ILAWS])
+cfg("C07", assumptions=[ILAWS, A_ENT, "induction over call histories is a 3-line meta-argument over the proved per-method clauses (flags monotone, raise-iff conditions, scalar stable), not mechanised"])
+cfg("C08", assumptions=[ILAWS, "T0 json model: json.loads(json.dumps(d)) == d for str->str dicts; json.dumps output is ASCII"])
+cfg("C09", assumptions=[ILAWS, M_SHA],
+    not_decided=["the fingerprint does not cover the generator: known finding K1"],
+    extra=extra(ground.state, known=["K1"]))
+cfg("C10", assumptions=[ILAWS, "T0 json model (key order / whitespace insensitivity of json.loads is a property of the json module, exercised by the ground obligations which re-order keys and indent)"],
+    extra=extra(ground.state))
+cfg("C11", assumptions=[A_ENT, A_TERM],
+    not_decided=["'at most two expected draws' is an expectation; proved: the acceptance set has density >= 1/2 (topbits clause) and exact uniformity follows from the counting lemma (Lean block_count)"],
+    extra=extra(lean_theorems("block_count", "head_count")))
+cfg("C12", assumptions=["M-prime(Q) discharged by Pratt certificate; the Lean theorems are stated under [Fact (Nat.Prime Q)]"],
+    extra=extra(lambda: [o for o in ground.primality()[0] if "Q is prime" in o["name"] or "L is prime" in o["name"]]))
+cfg("C13", assumptions=[VALID_GROUP, "group axioms themselves (associativity, commutativity, distributivity) are facts about the spec operations: Lean Algebra.lean for integer groups; M-edgroup for Ed25519"],
+    extra=extra(lean_theorems("smul_add", "smul_mul", "smul_mul_distrib", "smul_zero", "smul_one", "mul_add'", "mul_distrib'", "mul_mul", "insub_add", "insub_mul")))
+cfg("C14", assumptions=[A_HKDF, A_TERM, VALID_GROUP, CONST_NOTE], extra=extra(ground.constants, ground.vectors))
+cfg("C15", assumptions=[VALID_GROUP, "A-float: math.ceil(bits/8) is exact (bits < 2**53)", "M-xrecover (T2) for decode(encode(P)) == P on Ed25519 (see C05)"])
+cfg("C16", assumptions=["A-gil: the multi-threaded clause rests on the footprint argument (disjoint write sets, shared state never written after import); no schedule is explored - argued, not proved"],
+    not_decided=["multi-threaded executions: sequential contracts cannot express schedules (footprint argument only)"],
+    extra=extra(_static))
 cfg("C17", assumptions=[M_SHA],
     not_decided=["'changing any single argument changes the key' as an absolute statement needs collision resistance of SHA-256; proved: equal keys imply equal arguments, modulo M-sha"])
-cfg("C06", assumptions=[ILAWS])
-cfg("C07", assumptions=[ILAWS, "A-entropy: the entropy function returns n bytes when asked for n and does not raise",
-                        "induction over call histories is a 3-line meta-argument over the proved per-method clauses (flags monotone, raise-iff conditions), not mechanised"])
-cfg("C01", assumptions=[ILAWS, "A-ae-empty: arbitrary_element(b'') is defined for the group (ground-checked for the shipped sets)"])
-cfg("C08", assumptions=[ILAWS])
+cfg("C18", assumptions=[CONST_NOTE, "#E(F_Q) = 8L is cited (M-edgroup); checked: 8L lies in the Hasse interval and L*Base = O"],
+    not_decided=["primality of p1024, p2048, p3072 and q3072: no certificate obtainable offline; Miller-Rabin (probabilistic) reported under bounded_standins, not counted as discharged"],
+    extra=extra(ground.constants, ground.primality))
